@@ -50,7 +50,8 @@ def gen_leaf(rng, common, kinds, leaf_kind=None, small=False):
     if lk == "list" and kind in ("float", "complex") and rng.random() < .6:
         s["as"] = "list_mixed"
     if s["as"] == "poly" and len(s["names"]) >= 2 and rng.random() < .15:
-        s["as"] = "poly_perm"     # same polynomial, names declared in another order
+        # same polynomial, names declared in another order (reversed, or rotated: not its own inverse for 3+ names)
+        s["as"] = "poly_perm" if rng.random() < .5 else "poly_rot"
     return s
 
 
@@ -112,7 +113,7 @@ def bound_of(tree, env):
 def poly_side(tree, env):
     """does evaluating this subtree with Python operators certainly go through numpoly?"""
     if tree[0] == "leaf":
-        return env[tree[1]]["as"] in ("poly", "poly_T", "poly_perm")
+        return env[tree[1]]["as"] in ("poly", "poly_T", "poly_perm", "poly_rot")
     if tree[0] in ("neg", "pos", "pow", "powarr"):
         return poly_side(tree[1], env)
     return poly_side(tree[1], env) or poly_side(tree[2], env)
